@@ -12,11 +12,12 @@ import MoneroModel.Drv.C17
 import MoneroModel.Drv.C07
 import MoneroModel.Drv.C10
 import MoneroModel.Drv.C19
+import MoneroModel.Drv.C04
 /-! Line-protocol driver: one operation per input line, one result line per operation.
 Result line = `<model result>\t<spec result>` (`-` when the operation has no model / no spec side).
 Each property contributes a step function in `MoneroModel/Drv/Cxx.lean`. -/
 
-def steps : List Step := [Drv.stepC14, Drv.stepC18, Drv.stepC20, Drv.stepCodec, Drv.stepC06, Drv.stepC03, Drv.stepC15, Drv.stepC16, Drv.stepC12, Drv.stepC13, Drv.stepC17, Drv.stepC07, Drv.stepC10, Drv.stepC19]
+def steps : List Step := [Drv.stepC14, Drv.stepC18, Drv.stepC20, Drv.stepCodec, Drv.stepC06, Drv.stepC03, Drv.stepC15, Drv.stepC16, Drv.stepC12, Drv.stepC13, Drv.stepC17, Drv.stepC07, Drv.stepC10, Drv.stepC19, Drv.stepC04]
 
 def step (toks : List String) : String × String :=
   match steps.findSome? (fun f => f toks) with
